@@ -181,6 +181,13 @@ class NotifyPath(RuleAnalysis):
             if isinstance(d, (ast.FunctionDef, ast.AsyncFunctionDef)) and d is not fn.node and d.name in names \
                     and any(isinstance(x, ast.Attribute) and x.attr == "unwrap" for x in ast.walk(d)):
                 return True
+        # ... or through a bound private method handed over as the callback (`self._retry(self.__try_unwrap, t)`)
+        if fn is not None and fn.cls is not None and isinstance(node, ast.Call):
+            for a in list(node.args) + [k.value for k in node.keywords]:
+                if isinstance(a, ast.Attribute) and isinstance(a.value, ast.Name) and a.value.id == fn.self_name and a.attr.startswith("_"):
+                    g = fn.cls.methods.get(a.attr)
+                    if g is not None and not isinstance(g.node, ast.Lambda) and any(isinstance(x, ast.Attribute) and x.attr == "unwrap" for x in ast.walk(g.node)):
+                        return True
         return False
 
     def keeps_opaque(self, g, node):
@@ -468,16 +475,17 @@ def run(eng, run):
     _verify_anchor_names(eng, run)
     run.not_decided += NOT_DECIDED
     run.assumptions += ["the ssl module is present (conditional handler expressions `X if ssl else ()` are evaluated with ssl available)"]
-    check_map(eng, run)
-    check_ragged(eng, run)
-    check_notify(eng, run)
-    check_ctx(eng, run)
-    check_ctx_global(eng, run)
-    check_cli(eng, run)
-    check_default(eng, run)
-    check_flush_shared(eng, run)
+    run.attempt(check_map, eng, run)
+    run.attempt(check_ragged, eng, run)
+    run.attempt(check_notify, eng, run)
+    run.attempt(check_ctx, eng, run)
+    run.attempt(check_ctx_global, eng, run)
+    run.attempt(check_cli, eng, run)
+    run.attempt(check_default, eng, run)
+    run.attempt(check_flush_shared, eng, run)
     from sa.analyses.arms import check_dead_arms
-    check_dead_arms(eng, run, "C09.arms", ("clients.tcp", "clients.async_tcp", "lowlevel.api_async.transports.tls", "lowlevel.api_sync.transports"), 7)
+    run.attempt(check_dead_arms, eng, run, "C09.arms", ("clients.tcp", "clients.async_tcp", "lowlevel.api_async.transports.tls", "lowlevel.api_sync.transports"), 7)
+    run.end_of_rules()
 
 
 # ---------------------------------------------------------------------------------------------- self-test corpus
